@@ -691,6 +691,13 @@ Section Proofs.
     - now rewrite Hg.
   Qed.
 
+  (* the unexported helper of Put and the exported Contains agree (sequentially) *)
+  Lemma contains_locked_eq (r : tst) k : contains_locked r k = contains r k.
+  Proof.
+    destruct k as [|c rest]; [reflexivity|]. unfold contains_locked, contains, get.
+    destruct (get_node r c rest) as [[|nc [|] v l m r']|]; reflexivity.
+  Qed.
+
   Lemma step_sim (t : trie) (m : smap) (o : op) :
     put_nonempty o -> R t m ->
     R (fst (step t o)) (fst (s_step m o)) /\ snd (step t o) = snd (s_step m o).
@@ -702,7 +709,7 @@ Section Proofs.
       + apply ordered_put, Ho.
       + apply s_put_sorted, Hs.
       + intros k'. rewrite get_put, s_get_put, Hg. reflexivity.
-      + rewrite (R_contains t m _ HR), (s_put_length _ _ _ Hs). destruct (s_get (c :: rest) m); lia.
+      + rewrite contains_locked_eq, (R_contains t m _ HR), (s_put_length _ _ _ Hs). destruct (s_get (c :: rest) m); lia.
     - now rewrite Hg.
     - now rewrite (R_contains t m k HR).
     - now rewrite Hn.
